@@ -475,6 +475,16 @@ func runWire(t *testing.T, c *WireCase) (string, []vh.Violation, map[string]int)
 	if err != nil {
 		t.Fatal(err)
 	}
+	var fback clusterpb.FullState
+	if err := proto.Unmarshal(full, &fback); err != nil || len(fback.Parts) != len(fs.Parts) {
+		viols = append(viols, vh.Violation{Key: "fullstate-roundtrip", What: "proto.Unmarshal(proto.Marshal(FullState)) differs", Case: Case{Kind: "wire", Wire: c}})
+	} else {
+		for i, p := range fback.Parts {
+			if p.Key != fs.Parts[i].Key || string(p.Data) != string(fs.Parts[i].Data) {
+				viols = append(viols, vh.Violation{Key: "fullstate-roundtrip", What: "proto.Unmarshal(proto.Marshal(FullState)) differs in a part", Case: Case{Kind: "wire", Wire: c}})
+			}
+		}
+	}
 	capacity := measureCap(t)
 	tags[fmt.Sprintf("measured-queue-capacity=%d", capacity)]++
 	return fmt.Sprintf("KWire %s %s %s", vh.List(items), coqBytes(full, pays), vh.Z(int64(capacity))), viols, tags
